@@ -4556,18 +4556,9 @@ impl<'a> Assignment<'a> {
                             "1" | "yes" | "true" | "enabled" | "on" => DataValue::Bool(true),
                             _ => DataValue::Bool(false),
                         },
-                        ArgType::Integer => DataValue::try_from(value).or_else(|_| {
-                            Err(StamError::QuerySyntaxError(
-                                format!("Expected integer in assignment, got '{}'", value),
-                                "",
-                            ))
-                        })?,
-                        ArgType::Float => DataValue::try_from(value).or_else(|_| {
-                            Err(StamError::QuerySyntaxError(
-                                format!("Expected integer in assignment, got '{}'", value),
-                                "",
-                            ))
-                        })?,
+                        //(not DataValue::try_from(&str): that always yields a string)
+                        ArgType::Integer => DataValue::Int(parse_int(value)?),
+                        ArgType::Float => DataValue::Float(parse_float(value)?),
                         ArgType::String => DataValue::String(value.to_string()),
                         _ => {
                             return Err(StamError::QuerySyntaxError(
